@@ -579,7 +579,7 @@ func (g *gen) stringLit() *N {
 	for i := 0; i < len(units); i++ {
 		u := units[i]
 		if r.Intn(10) == 0 { // LineContinuation contributes nothing (7.8.4)
-			b.WriteString(Pick(r, []string{"\\\n", "\\\r\n", "\\\r"}))
+			b.WriteString(Pick(r, []string{"\\\n", "\\\r\n", "\\\r", "\\\u2028", "\\\u2029"}))
 		}
 		if u >= 0xd800 && u < 0xdc00 && i+1 < len(units) && units[i+1] >= 0xdc00 && units[i+1] < 0xe000 {
 			c := 0x10000 + (rune(u)-0xd800)<<10 + (rune(units[i+1]) - 0xdc00)
@@ -599,6 +599,14 @@ func (g *gen) stringLit() *N {
 		if u <= 0xff {
 			forms = append(forms, fmt.Sprintf("\\x%02x", u), fmt.Sprintf("\\x%02X", u))
 			forms = append(forms, fmt.Sprintf("\\%03o", u)) // B.1.2 octal escape, three digits
+			// the shorter forms: the escape is the LONGEST match, three digits only after 0..3, two after 4..7
+			nextOctal := i+1 < len(units) && units[i+1] >= '0' && units[i+1] <= '7'
+			switch o := fmt.Sprintf("%o", u); {
+			case len(o) == 1 && !nextDigit:
+				forms = append(forms, "\\"+o)
+			case len(o) == 2 && (o[0] >= '4' || !nextOctal):
+				forms = append(forms, "\\"+o, "\\"+o)
+			}
 		}
 		if s, ok := singleEsc[u]; ok {
 			forms = append(forms, s, s, s)
@@ -1059,7 +1067,7 @@ func (g *gen) randomStrCase() {
 	if r.Intn(8) == 0 { // splice one form of the recorded regions into the literal
 		extra := Pick(r, []string{`\ud83d\ude00`, `\uD800`, `\uDC00`, `\udbff\udfff`, `\400`, `\477`, `\777`, `\567`, "\\\u2028", "\\\u2029"})
 		lit = lit[:len(lit)-1] + extra + lit[len(lit)-1:]
-		g.strCase(lit, "str-deviation-region")
+		g.strCase(lit, "str-surrogate-or-repaired-region")
 		return
 	}
 	g.strCase(lit, "str-random")
@@ -1163,6 +1171,17 @@ func runC03(env *Env) {
 		if u >= 0x20 && u < 0x7f && !strings.ContainsRune("xu0123456789'", rune(u)) {
 			g.strCase(`'\`+string(rune(u))+`'`, "str-sweep")
 		}
+	}
+	// an octal escape starting with 4..7 ends after two digits whatever follows (repaired in /repo 96a7b64)
+	for u := 040; u <= 077; u++ {
+		for d := 0; d < 10; d++ {
+			g.strCase(fmt.Sprintf(`"\%o%d"`, u, d), "str-sweep")
+		}
+	}
+	for _, lt := range []string{"\u2028", "\u2029", "\n", "\r", "\r\n"} { // every LineContinuation, in every position
+		g.strCase("'\\"+lt+"'", "str-sweep")
+		g.strCase("'a\\"+lt+"b'", "str-sweep")
+		g.strCase("\"\\"+lt+"\\"+lt+"\\101\\"+lt+"\"", "str-sweep")
 	}
 	for _, t := range []string{`'\0'`, `'\0a'`, `"\1"`, `"\7"`, `"\18"`, `"\79"`, `"\128"`, `"\1234"`, `"\377"`, `"\3777"`, `"\47"`, `"\4a7"`, "'\\\n'", "'a\\\r\nb'", "'a\\\rb'", `"\u0000"`, `"\uffff"`, `"\ud7ff\ue000"`, `"\u00e9\xe9é"`, `"'"`, `'"'`, `""`, `''`, `"\'\""`} {
 		g.strCase(t, "str-boundary")
